@@ -25,7 +25,7 @@ fn size_enc(max: Option<usize>, rh: usize, rb: usize) -> (String, String) {
     let req = Request::new(Bytes::from(vec![0u8; rb])).with_route("r".repeat(rh - 16));
     let cfg = config_with_max(max);
     let mut w = FramedWrite::new(Vec::<u8>::new(), hook::codec(&cfg));
-    let res = rt().block_on(hook::write_request(&mut w, req));
+    let res = futures::executor::block_on(hook::write_request(&mut w, req));
     let written = w.get_ref().len();
     let out = match res {
         Ok(()) => format!("ok written={written}"),
@@ -47,7 +47,7 @@ fn size_dec(max: Option<usize>, rh: usize, rb: usize) -> (String, String) {
     s.extend(std::iter::repeat(0u8).take(rb));
     let cfg = config_with_max(max);
     let mut rd = FramedRead::new(&s[..], hook::codec(&cfg));
-    let out = match rt().block_on(hook::read_request(&mut rd)) {
+    let out = match futures::executor::block_on(hook::read_request(&mut rd)) {
         Ok(r) => {
             if r.body().len() == rb && r.route().len() == rh - 16 {
                 "ok".to_string()
